@@ -42,6 +42,7 @@ var knownSignatures = map[string]string{
 	"N09": "N09-nul-or-octal-escape-joined-with-digit",
 	"N10": "N10-comma-group-left-operand-unwrapped",
 	"N11": "N11-dangling-else-after-empty-else-dropped",
+	"K118": "K118-assignment-to-undefined-or-Infinity",
 }
 
 var reK08 = regexp.MustCompile(`\\u(005[cC]|\{0*5[cC]\})`)
@@ -298,6 +299,23 @@ func scanKnown(src string) []string {
 			}
 		case tIdent:
 			switch t.s {
+			case "undefined", "Infinity":
+				// K118: the global constants as assignment / update targets (their replacement 0[0] / 1/0 is not the same target)
+				if nx := at(i + 1); nx.k == tPunct && (nx.s == "=" || nx.s == "++" || nx.s == "--" || len(nx.s) >= 2 && strings.HasSuffix(nx.s, "=") && nx.s != "==" && nx.s != "===" && nx.s != "!=" && nx.s != "!==" && nx.s != "<=" && nx.s != ">=") {
+					found["K118"] = true
+				}
+				if pv := at(i - 1); isPunct(pv, "++") || isPunct(pv, "--") {
+					found["K118"] = true
+				}
+				if isPunct(at(i+1), ")") { // (undefined) = x
+					j := i + 1
+					for isPunct(at(j), ")") {
+						j++
+					}
+					if isPunct(at(j), "=") {
+						found["K118"] = true
+					}
+				}
 			case "with":
 				if isPunct(at(i+1), "(") {
 					found["K14"] = true
